@@ -61,6 +61,11 @@ impl Pages {
         self.vec.len()
     }
 
+    /// True while in-memory changes to the index (truncate, reset, push) have not been flushed.
+    pub fn has_unflushed_changes(&self) -> bool {
+        self.change_at.is_some()
+    }
+
     pub fn get(&self, page_index: usize) -> Option<&Page> {
         self.vec.get(page_index)
     }
